@@ -5,7 +5,10 @@
    fail-closed): module MT holds the method bodies of MersenneTwister over the
    abstract generator of Streams/Stream.v, module Upd those of
    SimpleStreamUpdater.update_seed, StreamSeedUpdater.update_seed and
-   StreamUpdater.update_seeds over the types of Streams/Seeds.v.
+   StreamUpdater.update_seeds over the types of Streams/Seeds.v, module Inf those
+   of StreamInformation.__init__ / add_stream / get_stream and
+   StreamSeedInformation.__init__ (with the default values of their parameters)
+   over the store of stream objects of Streams/Info.v.
 
    This file proves, for every translated method, that the generated definition
    equals the hand-written model function -- for ALL states and arguments and for
@@ -23,7 +26,7 @@
    every run of the checks; when a change of streams.py makes an equality false,
    it no longer compiles and the check reports the broken tie. *)
 From Coq Require Import ZArith List Bool Lia.
-From PV Require Streams.Stream Streams.StreamProofs Streams.Seeds Streams.SeedsProofs.
+From PV Require Streams.Stream Streams.StreamProofs Streams.Seeds Streams.SeedsProofs Streams.Info Streams.InfoProofs.
 From PV Require Import Streams.Gen_Streams.
 Import ListNotations.
 
@@ -600,3 +603,127 @@ Proof.
 Qed.
 
 End C13Agree.
+
+(* ====================================================================== *)
+(* C12: StreamInformation / StreamSeedInformation                          *)
+(* ====================================================================== *)
+Module InfoAgree.
+Import Stream StreamProofs Info InfoProofs Inf.
+Local Open Scope Z_scope.
+
+Definition ires_of {A} (r : pyret A) : ires A := match r with Ret v => IVal v | Exc e => IRaise e end.
+
+(* the default of the parameter is the immutable None: nothing is built at definition time *)
+Theorem gen_StreamInformation_default_eq :
+  gen_StreamInformation___init____default_default_stream = SNone /\
+  gen_StreamSeedInformation___init____default_default_stream = SNone.
+Proof. split; reflexivity. Qed.
+
+(* the constructor, for every argument, every clock, every state Random() starts in and whatever the blank
+   object held: the model's info_init -- with None a NEW fresh stream with seed 10 is appended to the store *)
+Theorem gen_StreamInformation_init_eq : forall clock g0 g1 w s0 a,
+  let '((w', s'), r) := gen_StreamInformation___init__ clock g0 g1 w s0 a in
+  match info_init w a with
+  | (w2, IVal d) => w' = w2 /\ i_streams s' = d /\ r = Ret tt
+  | (w2, IRaise e) => w' = w2 /\ r = Exc e
+  end.
+Proof.
+  intros clock g0 g1 w s0 [|i|]; [|cbn; repeat split|cbn; repeat split].
+  unfold gen_StreamInformation___init__. cbn [py_obj_is_none].
+  assert (E' : MT.gen_MersenneTwister___init__ clock g0 (mkS g1 0 0 []) (MT.SeedInt 10) = (fresh default_seed, MT.Ret tt)).
+  { unfold MT.gen_MersenneTwister___init__, MT.gen_MersenneTwister_set_seed, fresh. reflexivity. }
+  rewrite E'. cbn. repeat split.
+Qed.
+
+Theorem gen_StreamInformation_add_stream_eq : forall w s k a,
+  let '((w', s'), r) := gen_StreamInformation_add_stream w s k a in
+  w' = w /\ (i_streams s', ires_of r) = info_add (i_streams s) k a.
+Proof. intros w [d] [n|] [|i|]; cbn; repeat split. Qed.
+
+Theorem gen_StreamInformation_get_stream_eq : forall w s k,
+  let '((w', s'), r) := gen_StreamInformation_get_stream w s k in
+  w' = w /\ s' = s /\ ires_of r = info_stream (i_streams s) k.
+Proof.
+  intros w [d] [n|]; cbn; [|repeat split].
+  unfold gen_StreamInformation_get_stream. cbn. destruct (info_get d n); repeat split.
+Qed.
+
+Theorem gen_StreamSeedInformation_init_eq : forall clock g0 g1 w s0 a,
+  let '((w', s'), r) := gen_StreamSeedInformation___init__ clock g0 g1 w s0 a in
+  match sinfo_init w a with
+  | (w2, IVal si) => w' = w2 /\ mkSI (i_streams (sis_base s')) (sis_seeds s') = si /\ r = Ret tt
+  | (w2, IRaise e) => w' = w2 /\ r = Exc e
+  end.
+Proof.
+  intros clock g0 g1 w s0 a. unfold gen_StreamSeedInformation___init__, sinfo_init.
+  pose proof (gen_StreamInformation_init_eq clock g0 g1 w (sis_base s0) a) as H.
+  destruct (gen_StreamInformation___init__ clock g0 g1 w (sis_base s0) a) as [[w1 b1] r1].
+  destruct (info_init w a) as [w2 [d|e]].
+  - destruct H as [H1 [H2 H3]]. subst. cbn. repeat split.
+  - destruct H as [H1 H2]. subst. cbn. repeat split.
+Qed.
+
+(* StreamInformation() twice, through the generated constructor and the generated default: the two objects
+   hand out (generated get_stream) two DIFFERENT stream objects, both fresh streams with seed 10 *)
+Definition gen_new_info (clock : Z) (g0 g1 : gstate) (w : list stream) : (list stream * istate) * pyret unit :=
+  gen_StreamInformation___init__ clock g0 g1 w (mkI []) gen_StreamInformation___init____default_default_stream.
+
+Theorem generated_default_infos_hold_distinct_fresh_streams : forall clock g0 g1 clock' g0' g1' w,
+  let '((w1, s1), _) := gen_new_info clock g0 g1 w in
+  let '((w2, s2), _) := gen_new_info clock' g0' g1' w1 in
+  exists i j,
+    snd (gen_StreamInformation_get_stream w2 s1 (KStr default_name)) = Ret i /\
+    snd (gen_StreamInformation_get_stream w2 s2 (KStr default_name)) = Ret j /\
+    i <> j /\ nth_error w2 i = Some (fresh default_seed) /\ nth_error w2 j = Some (fresh default_seed) /\
+    w2 = fst (info_init (fst (info_init w SNone)) SNone).
+Proof.
+  intros clock g0 g1 clock' g0' g1' w. unfold gen_new_info.
+  pose proof (gen_StreamInformation_init_eq clock g0 g1 w (mkI []) SNone) as H1.
+  change gen_StreamInformation___init____default_default_stream with SNone.
+  destruct (gen_StreamInformation___init__ clock g0 g1 w (mkI []) SNone) as [[w1 s1] r1].
+  pose proof (gen_StreamInformation_init_eq clock' g0' g1' w1 (mkI []) SNone) as H2.
+  destruct (gen_StreamInformation___init__ clock' g0' g1' w1 (mkI []) SNone) as [[w2 s2] r2].
+  cbn [info_init] in H1, H2. destruct H1 as [E1 [D1 _]]. destruct H2 as [E2 [D2 _]]. subst w1 w2.
+  pose proof (two_default_infos_hold_distinct_fresh_streams w) as T. cbn [info_init] in T.
+  destruct T as [d1 [d2 [i [j [T1 [T2 [T3 [T4 [T5 [T6 [T7 _]]]]]]]]]]].
+  inversion T1; inversion T2; subst d1 d2.
+  exists i, j.
+  pose proof (gen_StreamInformation_get_stream_eq (((w ++ [fresh default_seed]) ++ [fresh default_seed])) s1 (KStr default_name)) as G1.
+  pose proof (gen_StreamInformation_get_stream_eq (((w ++ [fresh default_seed]) ++ [fresh default_seed])) s2 (KStr default_name)) as G2.
+  destruct (gen_StreamInformation_get_stream _ s1 _) as [[wa sa] ra].
+  destruct (gen_StreamInformation_get_stream _ s2 _) as [[wb sb] rb].
+  destruct G1 as [_ [_ G1]]. destruct G2 as [_ [_ G2]]. rewrite D1 in G1. rewrite D2 in G2.
+  rewrite T3 in G1. rewrite T4 in G2. cbn [snd].
+  destruct ra; cbn in G1; inversion G1. destruct rb; cbn in G2; inversion G2. subst.
+  repeat split; assumption.
+Qed.
+
+Theorem info_generated_agree :
+  (gen_StreamInformation___init____default_default_stream = SNone /\
+   gen_StreamSeedInformation___init____default_default_stream = SNone) /\
+  (forall clock g0 g1 w s0 a,
+     let '((w', s'), r) := gen_StreamInformation___init__ clock g0 g1 w s0 a in
+     match info_init w a with
+     | (w2, IVal d) => w' = w2 /\ i_streams s' = d /\ r = Ret tt
+     | (w2, IRaise e) => w' = w2 /\ r = Exc e
+     end) /\
+  (forall w s k a,
+     let '((w', s'), r) := gen_StreamInformation_add_stream w s k a in
+     w' = w /\ (i_streams s', ires_of r) = info_add (i_streams s) k a) /\
+  (forall w s k,
+     let '((w', s'), r) := gen_StreamInformation_get_stream w s k in
+     w' = w /\ s' = s /\ ires_of r = info_stream (i_streams s) k) /\
+  (forall clock g0 g1 w s0 a,
+     let '((w', s'), r) := gen_StreamSeedInformation___init__ clock g0 g1 w s0 a in
+     match sinfo_init w a with
+     | (w2, IVal si) => w' = w2 /\ mkSI (i_streams (sis_base s')) (sis_seeds s') = si /\ r = Ret tt
+     | (w2, IRaise e) => w' = w2 /\ r = Exc e
+     end).
+Proof.
+  split; [exact gen_StreamInformation_default_eq|].
+  split; [exact gen_StreamInformation_init_eq|].
+  split; [exact gen_StreamInformation_add_stream_eq|].
+  split; [exact gen_StreamInformation_get_stream_eq|exact gen_StreamSeedInformation_init_eq].
+Qed.
+
+End InfoAgree.
